@@ -326,12 +326,24 @@ def _r10e(rep):
             ok, _ = symalg.is_zero(tr.expr(stm[k].value, {}) - tr2.expr(ast.parse(wtxt, mode="eval").body, {}))
         rep.instance("R10e", PY, "ThermalProperties._run_c_thermal_properties", f"{k} = {got}", ok,
                      f"C-route post-processing of {k} is not {wtxt} (ZPE must be added exactly once, S and Cv scaled by 1000)", line=stm[k].lineno if k in stm else fn.lineno)
-    # ZPE itself: sum(f)/2 * w / sum(w) * EvTokJmol
+    # ZPE itself: (sum_q w_q * sum_modes f / 2) / sum(w) * EvTokJmol  -- compared as an open term, so a
+    # vectorised rewrite is accepted as long as the factors 1/2, 1/sum(w), EvTokJmol and the weight stay
     init = core.find_def(PY, "ThermalProperties.__init__")
-    ztxt = [core.src(s) for s in ast.walk(init) if isinstance(s, (ast.Assign, ast.AugAssign)) and "zp_energy" in core.src(s)]
-    ok = "zp_energy += np.sum(positive_fs) * w / 2" in ztxt and "self._zero_point_energy = zp_energy / np.sum(self._weights) * EvTokJmol" in ztxt
-    rep.instance("R10e", PY, "ThermalProperties.__init__", core.norm(" ; ".join(ztxt)), ok,
-                 "zero-point energy is not sum_q w_q sum f/2 / sum(w) * EvTokJmol", line=init.lineno)
+    tr = symalg.OpenPyTranslator(where="ThermalProperties.__init__")
+    env = tr.summary(init)
+    zpe = env.get("self._zero_point_energy")
+    cands = [v for v in tr.assigned.get("self._zero_point_energy", []) if v not in (sp.Symbol("None"),) and v != 0 and not getattr(v, "is_Number", False)]
+    if not cands:
+        raise AnalysisError("ThermalProperties.__init__: the zero-point energy assignment vanished")
+    val = cands[-1]
+    sumw = symalg.open_expr("np.sum(self._weights)")
+    r = sp.simplify(val * 2 * sumw / sp.Symbol("EvTokJmol"))
+    r1 = r.subs(sp.Symbol("w"), 1)
+    wdep = r.has(sp.Symbol("w")) or r.has(sp.Symbol("self._weights"))
+    shape_ok = isinstance(r1, sp.Function) or (r1.is_Mul and False)
+    ok = wdep and shape_ok and not r.has(sp.Symbol("EvTokJmol")) and sp.simplify(r / r1) in (sp.Symbol("w"), 1)
+    rep.instance("R10e", PY, "ThermalProperties.__init__", "zero_point_energy == sum_q w_q sum_modes f / 2 / sum(w) * EvTokJmol", ok,
+                 f"zero-point energy is not the weighted half-frequency sum normalised by sum(weights) in kJ/mol: after removing 1/2, 1/sum(w) and EvTokJmol the term is {core.norm(str(r), 120)}", line=init.lineno)
     # kernel accumulates value * weights[i] per q and sums rows serially
     tu = cast.load(CF)
     kfn = tu.functions["phpy_get_thermal_properties"]
